@@ -62,6 +62,9 @@ def _slow(prog, rep):
     r1 = Rule(rep, "C08.R1", SLOW, site=body.span)
     r2 = Rule(rep, "C08.R2", SLOW, site=body.span)
     n = 0
+    r1.check(not m.stray_pushes, "only-loop-pushes", "the slow path adds lines only in its reassembly loop", "no push outside the loop",
+             "wrap_single_line_slow_path also adds a line outside its reassembly loop (%s): that line does not go through the "
+             "indent selection" % [nm for _b, nm in m.stray_pushes], site=site_of_block(body, m.stray_pushes[0][0]) if m.stray_pushes else None)
     for rec in m.recs:
         tr = rec.tr
         if not rec.pushes:
